@@ -146,6 +146,12 @@ var Ops = []Op{
 	repl(kSum, "summary-leading-en-quad", func(l, _ string) string { return "\u2000" + l }),
 	repl(kSum, "summary-leading-zwsp", func(l, _ string) string { return "\u200b" + l }), // U+200B is Cf, not Zs: rule-preserving
 	repl(kSum, "summary-5-spaces", func(l, _ string) string { return "     " + l }),
+	// white space that is NOT a blank character of the specification (not Zs, not tab): rule-preserving
+	repl(kSum, "summary-leading-formfeed", func(l, _ string) string { return "\f" + l }),
+	repl(kSum, "summary-leading-vtab", func(l, _ string) string { return "\v" + l }),
+	repl(kSum, "summary-leading-nel", func(l, _ string) string { return "\u0085" + l }),
+	repl(kSum, "summary-leading-line-separator", func(l, _ string) string { return "\u2028" + l }),
+	repl(kSum, "summary-leading-paragraph-separator", func(l, _ string) string { return "\u2029" + l }),
 	// --- indentation of entries / continuation lines
 	repl(kInd, "indent-1-space", func(l, u string) string { return " " + l[len(u):] }),
 	repl(kInd, "indent-5-spaces", func(l, u string) string { return "     " + l[len(u):] }),
@@ -163,6 +169,8 @@ var Ops = []Op{
 	repl(kCont, "continuation-triple", func(l, u string) string { return u + l }), // rule-preserving (text may start with blanks)
 	repl(kCont, "continuation-nbsp-only", func(l, u string) string { return u + u + "\u00a0" }),
 	repl(kCont, "continuation-ideographic-only", func(l, u string) string { return u + u + "\u3000\t" }),
+	repl(kCont, "continuation-formfeed-only", func(l, u string) string { return u + u + "\f" }),
+	repl(kCont, "continuation-line-separator-only", func(l, u string) string { return u + u + "\u2028\u0085" }),
 	// --- entry values
 	repl(kEnt, "value-hour-25", replaceValue("25:00 - 26:00")),
 	repl(kEnt, "value-minute-60", replaceValue("8:60 - 9:00")),
@@ -204,6 +212,8 @@ var Ops = []Op{
 	{Name: "nbsp-line-before", Kinds: kAny, Apply: func(l, _ string) ([]string, bool) { return []string{"\u00a0", l}, true }},
 	{Name: "stray-text-before", Kinds: kHead, Apply: func(l, _ string) ([]string, bool) { return []string{"stray text", "", l}, true }},
 	{Name: "stray-text-after-blank", Kinds: kAll, Apply: func(l, _ string) ([]string, bool) { return []string{l, "", "not a record"}, true }},
+	{Name: "stray-formfeed-after-blank", Kinds: kAll, Apply: func(l, _ string) ([]string, bool) { return []string{l, "", "\f"}, true }},
+	{Name: "stray-nel-vtab-after-blank", Kinds: kAll, Apply: func(l, _ string) ([]string, bool) { return []string{l, "", "\u0085\v"}, true }},
 	{Name: "delete-line", Kinds: kAny, Apply: func(l, _ string) ([]string, bool) { return []string{}, true }},
 	{Name: "duplicate-line", Kinds: kAny, Apply: func(l, _ string) ([]string, bool) { return []string{l, l}, true }},
 	{Name: "unindented-after", Kinds: kInd, Apply: func(l, _ string) ([]string, bool) { return []string{l, "late summary"}, true }},
